@@ -34,7 +34,8 @@ ctx is "pre" or the cid of the callback making the request.  Identifiers: "A<slo
 Reading of the statement (clauses; recorded in the final report):
  alarm   each alarm callback is entered at most once; only while it is pending (never after a
          remove_alarm of it, never twice); not before its due time (t >= lo - tol); not while another
-         pending alarm is *certainly* due earlier (other.hi < this.lo); the loop never waits without a
+         pending alarm is *certainly* due earlier (other.hi < this.lo - tol; real time: alarms registered
+         back to back with the same delay count as equally due); the loop never waits without a
          timeout, and never reaches permanent quiescence, while an alarm is pending ("runs exactly once").
          No order is required between alarms with equal due times.
  remove  remove_alarm of a pending alarm -> True, of an already removed one -> False (the statement);
@@ -53,7 +54,7 @@ Reading of the statement (clauses; recorded in the final report):
          required.  An idle callback is never entered while not registered (after removal).
  exc     after a callback raised, no further callback is entered (strict=True: virtual loops; for real
          loops callbacks of the same pass are tolerated, but no callback may be entered once the
-         loop has blocked again, and the harness stop alarm must not be reached); ExitMainLoop -> run() returns; otherwise run()
+         loop has blocked again -- in particular the harness's late stop alarm); ExitMainLoop -> run() returns; otherwise run()
          raises that very exception object; a later run() does not raise it again; run() neither
          returns nor raises without a callback having raised, and raises nothing no callback raised.
 """
@@ -165,7 +166,7 @@ def judge(trace, thr=0.0, tol=0.0, strict=True, have_ready=True, rerun_exc_only=
                 if strict:
                     v("exc", i, f"{cid} entered after {raised[0]} was raised by a callback: the loop did not stop")
                     flagged_after = True
-                elif kind == "Z" or blocked_after_raise:
+                elif blocked_after_raise:
                     v("exc", i, f"{cid} entered after {raised[0]} was raised by a callback and the loop had blocked again: the loop did not stop")
                     flagged_after = True
                 else:
@@ -181,7 +182,7 @@ def judge(trace, thr=0.0, tol=0.0, strict=True, have_ready=True, rerun_exc_only=
                     if t < a[0] - tol:
                         v("alarm", i, f"{cid} ran at {t!r}, before its due time {a[0]!r}")
                     for bid, b in alarms.items():
-                        if bid != cid and b[2] == "pending" and b[1] < a[0]:
+                        if bid != cid and b[2] == "pending" and b[1] < a[0] - tol:
                             v("alarm", i, f"{cid} (due {a[0]!r}) ran while {bid} (due earlier, {b[1]!r}) was still pending")
                 a[2] = "fired"
             elif kind == "P":
